@@ -766,6 +766,13 @@ func twinSession(t *testing.T, run *ev.Run, si, n int, concurrent bool) *violati
 		if name, d := diffObs(w.obsA(), w.obsB(), len(pre)); name != "" {
 			return &violation{"fault-vs-abort-twin:" + name, d, wit(map[string]any{"fault_exception": aerA.FaultException})}
 		}
+		// token movements of the faulted execution must not reach the node's
+		// per-account transfer history either (transfer log, last-updated heights)
+		if d, n, _ := vchain.DiffTransferHistories(w.A.BC, w.B, false); d != "" {
+			return &violation{"fault-vs-abort-twin:token-transfer-history", d, wit(map[string]any{"fault_exception": aerA.FaultException})}
+		} else {
+			run.Obs("twin_transfer_histories_compared", int64(n))
+		}
 		// next block 1: common probes
 		if err := w.addPair([]*transaction.Transaction{w.probeTx(4), w.commonTx(r, g.u)}, nil, nil, nil); err != nil {
 			return &violation{"later-block-rejected", err.Error(), wit(nil)}
